@@ -7,7 +7,9 @@ import (
 
 // C16 — a crash during Merge loses or changes nothing.
 
-func runC16(c Case, st *Stats) error {
+// dropListZsetForMergeCrash applies the recorded finding c16-merge-crash-list-zset: crash images inside
+// Merge are only judged for workloads without list and sorted-set calls.
+func dropListZsetForMergeCrash(c Case, st *Stats) Case {
 	if Known("c16-merge-crash-list-zset") {
 		// known finding: construct around it by dropping list and sorted-set calls
 		dropped := false
@@ -35,6 +37,11 @@ func runC16(c Case, st *Stats) error {
 			c.Steps = steps
 		}
 	}
+	return c
+}
+
+func runC16(c Case, st *Stats) error {
+	c = dropListZsetForMergeCrash(c, st)
 	return runCrashCase(c, st, "C16", crashOpts{CheckState: true, OnlyMerge: true, Torn: true})
 }
 
